@@ -231,6 +231,34 @@ type history struct {
 	msizes     []int // the generator's mirror size after each op
 	stuck      int   // index of an op that did not return, or -1
 	timedEmpty int
+	tostr      [2]string // double queue: ToString1(), ToString2() at the end of the history
+	tostrOK    bool
+}
+
+// readToString: the double queue's two content renderings, read at the end of a history
+func (h *history) readToString(im *impl) {
+	if !h.dbl || h.stuck >= 0 {
+		return
+	}
+	o := vh.GuardTimeout(hangLimit, func() { h.tostr = [2]string{im.d.ToString1(), im.d.ToString2()} })
+	h.tostrOK = o.OK()
+	if !o.OK() {
+		h.tostr = [2]string{o.String(), o.String()}
+	}
+}
+
+// renderItems: what LinkedList.ToString prints for the model's content `1,0,3` (`-` = empty; a nil element prints as nothing)
+func renderItems(items string) string {
+	if items == "-" || items == "" {
+		return ""
+	}
+	xs := strings.Split(items, ",")
+	for i, x := range xs {
+		if x == "0" {
+			xs[i] = ""
+		}
+	}
+	return strings.Join(xs, ",")
 }
 
 // genOp draws one op; the mirror is advanced so that blocking gets are only issued on a non-empty
@@ -348,6 +376,7 @@ func runHistory(r *vh.Rng, dbl bool, maxOps int, budget *int) *history {
 		h.sizes = append(h.sizes, sz)
 		h.msizes = append(h.msizes, m.size())
 	}
+	h.readToString(im)
 	return h
 }
 
@@ -416,6 +445,7 @@ func runScripted(sc history) *history {
 		h.sizes = append(h.sizes, sz)
 		h.msizes = append(h.msizes, m.size())
 	}
+	h.readToString(im)
 	return h
 }
 
@@ -620,10 +650,35 @@ func sequential(env *vh.Env, rep *vh.Report, rng *vh.Rng) {
 	if err != nil {
 		vh.Die("driver: %v", err)
 	}
+	// the same single-queue histories on the queue over the pointer-level linked list (driver line QL,
+	// Queue/OverLinked.lean; theorem C11.queue_over_linked_list_refines): same answers, same final content
+	var qlLines []string
+	var qlIdx []int
+	for i, l := range lines {
+		if strings.HasPrefix(l, "QF ") {
+			qlLines = append(qlLines, "QL "+l[3:])
+			qlIdx = append(qlIdx, i)
+		}
+	}
+	if len(qlLines) > 0 {
+		qlOuts, err := vh.RunDriver(env.Driver, qlLines)
+		if err != nil {
+			vh.Die("driver: %v", err)
+		}
+		for n, i := range qlIdx {
+			rep.Count("seq:over-linked-list")
+			if qlOuts[n] != outs[i] {
+				rep.Fail("correspondence", "queueOverLinkedList:model", "the queue model over the pointer-level linked list answers differently from the abstract queue model",
+					map[string]interface{}{"line": qlLines[n], "over_linked_list": qlOuts[n], "abstract": outs[i]})
+				break
+			}
+		}
+	}
 	for i, h := range hs {
 		main := outs[i]
+		final := ""
 		if j := strings.Index(main, " | "); j >= 0 {
-			main = main[:j]
+			main, final = main[:j], main[j+3:]
 		}
 		model := strings.Split(main, ";")
 		nontrivial := false
@@ -682,8 +737,23 @@ func sequential(env *vh.Env, rep *vh.Report, rng *vh.Rng) {
 			break
 		}
 		// the direct evaluation runs on every history, mismatch or not
-		if why := directProperty(h); why != "" {
+		why := directProperty(h)
+		if why != "" {
 			rep.Fail("property", qname(h.dbl)+":"+classify(why), "sequential history violates the property on the implementation: "+why, replay)
+		}
+		// ToString1 / ToString2 of the double queue against the model's final content
+		if parts := strings.Split(final, " "); h.dbl && why == "" && len(parts) == 2 && len(h.got) == len(h.ops) {
+			for qi, part := range parts {
+				items := part
+				if j := strings.LastIndex(part, "/"); j >= 0 {
+					items = part[:j]
+				}
+				rep.Count("seq:double-queue-ToString")
+				if want := renderItems(items); h.tostr[qi] != want && rep.NFail() == 0 {
+					rep.Fail("correspondence", fmt.Sprintf("RequestDoubleQueue.ToString%d:model-mismatch", qi+1),
+						fmt.Sprintf("at the end of the history ToString%d() = %q, the model's content renders as %q", qi+1, h.tostr[qi], want), replay)
+				}
+			}
 		}
 	}
 	rep.Sample(map[string]interface{}{"history": lines[0], "model": outs[0]})
@@ -1190,6 +1260,7 @@ func main() {
 	phase("sequential", deadline/2, func() { sequential(env, rep, rng.Fork()) }) // every call inside is under its own watchdog
 	phase("concurrent", deadline/2, func() { concurrent(env, rep, rng.Fork()) })
 	phase("timed", time.Minute, func() { timed(env, rep) })
+	phase("timed-in-company", 3*time.Minute, func() { timedInCompany(env, rep, rng.Fork()) })
 	phase("timed-under-clock-delta", 2*time.Minute, func() { timedUnderDelta(env, rep) })
 	phase("sync-clock", 4*time.Minute, func() { syncClockStage(env, rep) })
 	phase("callback-window", time.Minute, func() { callbackWindow(env, rep) })
